@@ -148,6 +148,7 @@ type Exec struct {
 	curBlock *ssa.BasicBlock
 	prov     map[string]string // reference term -> "fresh" | "owned"
 	havockedAll bool
+	inAtomic  bool
 	conds     []string
 	specCache map[string]Val
 	lastSpecKey, lastSpecName string
@@ -373,6 +374,11 @@ func (e *Exec) readAt(st *State, name string, ft types.Type, idx string) Val {
 		e.ldCache[selT] = t
 		e.S.Assert(sx("<=", t, st.top))
 		e.ptrTypeFact(t, ft)
+		if _, isFn := ft.Underlying().(*types.Signature); isFn {
+			r := vRef(t).withT(ft)
+			r.Origin = name
+			return r
+		}
 		if t != "0" {
 			switch e.P.ownMode(name) {
 			case "owned":
@@ -512,6 +518,8 @@ func (e *Exec) freshVal(prefix string, t types.Type, k Kind) Val {
 		return vBytes(s, n).withT(t)
 	case KRef:
 		return vRef(e.S.Fresh(prefix, "Int")).withT(t)
+	case KMap:
+		return Val{K: KMap, A: []string{e.S.Fresh(prefix, "(Array Int Int)")}}
 	case KStruct:
 		st := t.Underlying().(*types.Struct)
 		v := Val{K: KStruct, T: t}
